@@ -8,12 +8,15 @@ from vf.runner import Ctx
 
 PROPERTY = "C01"
 TECHNIQUE = ("Hypothesis-generated keys x mask-relative episode plans over a menu of constructor "
-             "configurations; independent spec-walker oracle; eval_shape for shapes/dtypes")
+             "configurations; independent spec-walker oracle; eval_shape for shapes/dtypes; bulk sweeps "
+             "(vmapped scripted-policy episodes with a device-side bound predicate, host-confirmed)")
 RULE = ("cases = (env, menu entry, reset key, episode plan mixing legal / illegal / raw / survive modes); "
         "every emitted observation, reward and discount is checked against the declared specs with an "
         "independent walker (structure, shape, dtype, inclusive bounds) and cross-checked with spec.validate; "
         "a validated timestep is non-trivial when it is FIRST or LAST or a bounded leaf touches its minimum "
-        "or maximum; distinct by (env, entry, step type, terminal cause, set of touching leaves)")
+        "or maximum; distinct by (env, entry, step type, terminal cause, set of touching leaves); sweep batches "
+        "(counters sweep_*) add 10^3..3*10^4 scripted-policy episodes per small entry whose timesteps are screened "
+        "on the device and re-judged by the same walker when flagged")
 ASSUMPTIONS = [
     "constructor configurations are drawn from the finite menus of vf/envs.py (documented arguments only)",
     "extras are not covered by any spec and are ignored; values emitted after a LAST timestep are not validated",
@@ -139,7 +142,7 @@ def _sweep(ctx, item, seed):
     specs3 = (("observation", env.observation_spec), ("reward", env.reward_spec), ("discount", env.discount_spec))
 
     if not hasattr(b, "_c01_flag"):
-        def flag(s, ts, is_reset):
+        def flag(s, ts, is_reset, step):
             import jax.numpy as jnp
 
             bad, touch = jnp.asarray(False), jnp.asarray(False)
